@@ -15,7 +15,7 @@ const hooksCompiled = true
 // treeInvariants asserts the structural invariants of a route tree at a
 // quiescent point (registration is single-threaded). "" = all hold.
 func treeInvariants(t route.Tree) string {
-	return nodeInvariants(route.VerifDump(t), nil, nil, 0)
+	return nodeInvariants(route.VerifDump(t), nil, nil, 0, "")
 }
 
 func flameTreeInvariants(f *flamego.Flame, method string) string {
@@ -23,10 +23,11 @@ func flameTreeInvariants(f *flamego.Flame, method string) string {
 	if n == nil {
 		return ""
 	}
-	return nodeInvariants(n, nil, nil, 0)
+	return nodeInvariants(n, nil, nil, 0, "")
 }
 
-func nodeInvariants(n, parent *route.VerifNode, pathBinds []string, alls int) string {
+func nodeInvariants(n, parent *route.VerifNode, pathBinds []string, alls int, prefix string) string {
+	prefix += n.Seg
 	if !n.ParentOK {
 		return fmt.Sprintf("node %q: parent link inconsistent", n.Seg)
 	}
@@ -75,6 +76,12 @@ func nodeInvariants(n, parent *route.VerifNode, pathBinds []string, alls int) st
 			return fmt.Sprintf("node %q: two leaves with segment %q", n.Seg, l.Seg)
 		}
 		seenL[l.Seg] = true
+		// a leaf hangs where its own route text says: the segments on the path
+		// from the root spell the route (the short form of an optional route
+		// stops one segment early)
+		if full := prefix + l.Seg; l.Route != full && !strings.HasPrefix(l.Route, full+"/?") && !(full == "/" && strings.HasPrefix(l.Route, "/?")) {
+			return fmt.Sprintf("leaf %q of route %q is filed under %q", l.Seg, l.Route, prefix)
+		}
 		if d := firstDup(append(append([]string{}, binds...), l.Binds...)); d != "" {
 			return fmt.Sprintf("leaf %q (route %q): bind %q occurs twice on the path from the root", l.Seg, l.Route, d)
 		}
@@ -96,7 +103,7 @@ func nodeInvariants(n, parent *route.VerifNode, pathBinds []string, alls int) st
 		}
 	}
 	for _, c := range n.Children {
-		if msg := nodeInvariants(c, n, binds, alls); msg != "" {
+		if msg := nodeInvariants(c, n, binds, alls, prefix); msg != "" {
 			return msg
 		}
 	}
